@@ -126,4 +126,182 @@ theorem dest_range_sorted (O : Oracle) (h : Hist) (a : Attrs) (d : Nat) :
   unfold destRange
   exact List.pairwise_lt_range'
 
+
+/-! ## Iterated groups -/
+
+/-- An iterated group with `1 ≤ max_iterations`, `min_iterations ≤ max_iterations` runs `n`
+passes with `max 1 min ≤ n ≤ max`; `converged()` is consulted (for all equations) exactly after
+the passes numbered `≥ min`; `n` is the FIRST pass after which the stopping test
+`count ≥ min ∧ (all converged ∨ count = max)` holds. -/
+theorem iteration_bounds (O : Oracle) (gid : GId) (a : Attrs) (convEqs : List Equation)
+    (body : Hist → Hist) (fuel : Nat) (h : Hist)
+    (hmax : 1 ≤ a.maxIter) (hmin : a.minIter ≤ a.maxIter) (hfuel : a.maxIter ≤ fuel) :
+    ∃ n, 1 ≤ n ∧ a.minIter ≤ n ∧ n ≤ a.maxIter ∧
+      implIter O gid a convEqs body fuel 1 h = passes O a convEqs body n 1 h ∧
+      stopsAfter O a convEqs body n (passes O a convEqs body (n - 1) 1 h) = true ∧
+      ∀ k, 1 ≤ k → k < n →
+        stopsAfter O a convEqs body k (passes O a convEqs body (k - 1) 1 h) = false := by
+  obtain ⟨m, h1, h2, h3, h4, h5, h6⟩ :=
+    implIter_passes O gid a convEqs body (a.maxIter - 1) fuel 1 h (by omega) hmin (by omega)
+  refine ⟨m, h1, by omega, by omega, h4, ?_, ?_⟩
+  · have : 1 + m - 1 = m := by omega
+    rw [this] at h5; exact h5
+  · intro k hk1 hkn
+    have := h6 (k - 1) (by omega)
+    have e : 1 + (k - 1) = k := by omega
+    rw [e] at this; exact this
+
+/-- The point the hypothesis of `iteration_bounds` excludes: with `min_iterations >
+max_iterations` (or `max_iterations = 0`) the generated test `count == max` can never fire once
+`count ≥ min`, so only convergence ends the loop — if the equations never all converge the
+loop runs for ever (any amount of fuel is exhausted). -/
+theorem iteration_unbounded_when_min_gt_max (O : Oracle) (gid : GId) (a : Attrs)
+    (convEqs : List Equation) (body : Hist → Hist)
+    (hbad : a.maxIter < a.minIter ∨ a.maxIter = 0)
+    (hnever : ∀ h, (queryConv O convEqs h).2 = false) (fuel : Nat) (h : Hist) :
+    ∃ rest, implIter O gid a convEqs body fuel 1 h = Event.diverged gid :: rest := by
+  suffices hgen : ∀ fuel count h, 1 ≤ count →
+      ∃ rest, implIter O gid a convEqs body fuel count h = Event.diverged gid :: rest from
+    hgen fuel 1 h (by omega)
+  intro fuel
+  induction fuel with
+  | zero => intro count h _; exact ⟨h, rfl⟩
+  | succ f ih =>
+    intro count h hc
+    simp only [implIter]
+    by_cases hle : a.minIter ≤ count
+    · have hne : (count == a.maxIter) = false := by
+        have : count ≠ a.maxIter := by omega
+        simpa using this
+      simp only [hle, if_true, hnever, hne, Bool.or_false, Bool.false_eq_true, if_false]
+      exact ih (count + 1) _ (by omega)
+    · simp only [hle, if_false]
+      exact ih (count + 1) _ (by omega)
+
+/-! ## Conditions -/
+
+/-- A top-level group (with at least one equation or sub-group) whose condition returns False
+makes no call at all: no pre/post, no equation method, no NNPS refresh, no converged(). -/
+theorem skipped_when_condition_false (O : Oracle) (fuel : Nat) (g : Top) (gi : Nat) (h : Hist)
+    (hc : (match g with | .leaf l => l.attrs.hasCond | .parent a _ => a.hasCond) = true)
+    (hne : ∀ l, g = .leaf l → l.eqs ≠ [])
+    (hf : O.cond h ⟨gi, none⟩ = false) :
+    doTop O fuel (g, gi) h = Event.cond ⟨gi, none⟩ false :: h := by
+  cases g with
+  | leaf l =>
+    have : l.eqs.isEmpty = false := by simpa using hne l rfl
+    simp only at hc
+    simp [doTop, isEmpty_makeData, this, wrapCond, hc, hf]
+  | parent a subs =>
+    simp only at hc
+    simp [doTop, wrapCond, hc, hf]
+
+/-- The same for a sub-group inside its parent. -/
+theorem sub_group_skipped_when_condition_false (O : Oracle) (gi k : Nat) (l : Leaf) (h : Hist)
+    (hc : l.attrs.hasCond = true) (hf : O.cond h ⟨gi, some k⟩ = false) :
+    doSub O gi (l, k) h = Event.cond ⟨gi, some k⟩ false :: h := by
+  simp [doSub, wrapCond, hc, hf]
+
+/-- A condition is asked exactly once per evaluation of the group (outside the iteration),
+before anything else of the group. -/
+theorem condition_asked_first (O : Oracle) (gid : GId) (a : Attrs) (body : Hist → Hist)
+    (h : Hist) (hc : a.hasCond = true) (ht : O.cond h gid = true) :
+    wrapCond O gid a body h = body (Event.cond gid true :: h) := by
+  simp [wrapCond, hc, ht]
+
+/-! ## pre / post / update_nnps -/
+
+/-- One pass over a group of equations: `pre` (if any) is the first call, `post` (if any) the
+last, the NNPS refresh (if requested) comes after every destination and just before `post`, and
+in between there are only calls of equation methods — each of pre/post exactly once. -/
+theorem pre_post_once_per_pass (O : Oracle) (gid : GId) (a : Attrs) (eqs : List Equation)
+    (h : Hist) :
+    ∃ mid, (∀ e ∈ mid, e.isHook = true) ∧
+      doGroup O gid a (makeData eqs) h =
+        (if a.hasPost then [Event.post gid] else []) ++
+        (if a.updateNnps then [Event.nnps gid] else []) ++ mid ++
+        (if a.hasPre then [Event.pre gid] else []) ++ h :=
+  doGroup_shape O gid a (makeData eqs) h
+
+/-- The template never looks at a sub-group's `iterate`, `min_iterations`, `max_iterations`. -/
+theorem sub_group_iterate_ignored (O : Oracle) (gi k : Nat) (l : Leaf) (it : Bool) (mn mx : Nat) :
+    doSub O gi ({ l with attrs := { l.attrs with iterate := it, minIter := mn, maxIter := mx } }, k)
+      = doSub O gi (l, k) := by
+  have hd : ∀ ddd h, doDest O { l.attrs with iterate := it, minIter := mn, maxIter := mx } ddd h
+      = doDest O l.attrs ddd h := by
+    intro ddd h
+    have hr : destRange O h { l.attrs with iterate := it, minIter := mn, maxIter := mx } ddd.1
+        = destRange O h l.attrs ddd.1 := rfl
+    unfold doDest
+    simp only [hr]
+  funext h
+  unfold doSub wrapCond
+  have hg : ∀ h, doGroup O ⟨gi, some k⟩ { l.attrs with iterate := it, minIter := mn, maxIter := mx }
+      (makeData l.eqs) h = doGroup O ⟨gi, some k⟩ l.attrs (makeData l.eqs) h := by
+    intro h
+    unfold doGroup
+    rw [forEach_congr (fun ddd _ h => hd ddd h)]
+  simp only [hg]
+
+/-- A top-level group without equations is skipped entirely, callables included
+(`% if len(group.data) > 0`) — the point excluded by `Program.WF`. -/
+theorem empty_top_group_is_skipped (O : Oracle) (fuel gi : Nat) (a : Attrs) (h : Hist) :
+    doTop O fuel (.leaf ⟨a, []⟩, gi) h = h := by
+  simp [doTop, makeData, destList]
+
+/-! ## Neighbours -/
+
+/-- For one destination particle and one source: `loop_all` of every equation that has it (user
+order) with the neighbour list, then for every neighbour the NNPS returned — in that order, none
+filtered out, ghosts or not — `loop` of every equation that has it (user order). -/
+theorem src_particle_calls (O : Oracle) (d s : Nat) (g : List Equation) (i : Nat) (h : Hist) :
+    srcParticle O d s g i h =
+      ((g.filter (·.has .loopAll)).map (fun e => Event.loopAll e.id d s i (O.nbrs h d s i)) ++
+       (O.nbrs h d s i).flatMap (fun j =>
+          (g.filter (·.has .loop)).map (fun e => Event.loop e.id d s i j))).reverse ++ h := by
+  rw [srcParticle_eq]
+  unfold specSrcParticle specCalls
+  simp only
+  have emitAll : ∀ (l : List Equation) (mk : Equation → Event) (h : Hist),
+      forEach l (fun e h => mk e :: h) h = (l.map mk).reverse ++ h := by
+    intro l mk
+    induction l with
+    | nil => intro h; rfl
+    | cons e l ih => intro h; simp [ih]
+  have perNbr : ∀ (nb : List Nat) (h : Hist),
+      forEach nb (fun j => forEach (g.filter (·.has .loop))
+        (fun e h => Event.loop e.id d s i j :: h)) h =
+      (nb.flatMap (fun j => (g.filter (·.has .loop)).map
+        (fun e => Event.loop e.id d s i j))).reverse ++ h := by
+    intro nb
+    induction nb with
+    | nil => intro h; rfl
+    | cons j nb ih => intro h; simp [ih, emitAll]
+  rw [emitAll, perNbr]
+  simp
+
+
+/-! ## Non-vacuity: concrete programs (checked by evaluation; these are tests, not the claim) -/
+
+/-- a non-trivial program (iterated group with two destinations, a source-free equation, an
+NNPS refresh; a conditional group with two sub-groups) meets `Program.WF` -/
+example : Example.prog.WF := by decide
+
+/-- …and on it, with a history-dependent oracle, both sides are the same 87 calls -/
+example : implTrace Example.oracle 5 Example.prog = specTrace Example.oracle Example.prog ∧
+    (implTrace Example.oracle 5 Example.prog).length = 87 := by
+  decide +kernel
+
+/-- `Program.WF` cannot be dropped: a top-level group without equations but with `pre` -/
+example : implTrace Example.oracle 1 Example.emptyWithPre
+    ≠ specTrace Example.oracle Example.emptyWithPre := by decide
+
+/-- `Program.WF` cannot be dropped: `min_iterations = 3 > max_iterations = 2` runs 3 passes -/
+example : implTrace Example.oracle 9 Example.minGtMax
+    ≠ specTrace Example.oracle Example.minGtMax := by decide
+
+/-- hypotheses of `iteration_bounds` are satisfiable and the bound is attained -/
+example : (1 : Nat) ≤ ({ iterate := true, minIter := 2, maxIter := 3 } : Attrs).maxIter ∧
+    ({ iterate := true, minIter := 2, maxIter := 3 } : Attrs).minIter ≤ 3 := by decide
+
 end PysphVerif.C03
